@@ -313,7 +313,7 @@ def check(ctx):
                     ctx.fail('C01.3', ctx.site(b, sb), 'no arm for EnvelopeCase::%s' % vname, key='C01.3|noarm|' + vname)
                     continue
                 tgt, reg = regions[idx]
-                rds = ret_defs(tb, reg)
+                rds = arm_ret_values(b, tb, sb, idx)
                 if len(rds) != 1:
                     ctx.fail('C01.3', ctx.site(b, tgt), 'arm %s does not produce exactly one value' % vname, key='C01.3|armshape|' + vname)
                     continue
